@@ -668,13 +668,38 @@ func ruleC03c(c *Ctx) {
 	}
 	var incs []inc
 	unknown := ""
-	eachInstr(scorer, func(i ssa.Instruction) {
-		bo, ok := i.(*ssa.BinOp)
-		if !ok || bo.Op != token.ADD {
+	// the accumulator family: everything the returned score is built from through Phis and additions
+	family := map[ssa.Value]bool{}
+	var grow func(v ssa.Value)
+	grow = func(v ssa.Value) {
+		v = strip(v)
+		if family[v] {
 			return
 		}
-		phi, ok := strip(bo.X).(*ssa.Phi)
-		if !ok || phi.Comment != "score" {
+		switch x := v.(type) {
+		case *ssa.Phi:
+			family[v] = true
+			for _, e := range x.Edges {
+				grow(e)
+			}
+		case *ssa.BinOp:
+			if x.Op == token.ADD {
+				family[v] = true
+				grow(x.X)
+			}
+		}
+	}
+	for _, r := range returnsOf(scorer) {
+		if len(r.Results) == 2 {
+			grow(r.Results[1])
+		}
+	}
+	eachInstr(scorer, func(i ssa.Instruction) {
+		bo, ok := i.(*ssa.BinOp)
+		if !ok || bo.Op != token.ADD || !family[bo] {
+			return
+		}
+		if _, isPhi := strip(bo.X).(*ssa.Phi); !isPhi && !family[strip(bo.X)] {
 			return
 		}
 		if n, ok := constInt(bo.Y); ok {
@@ -733,17 +758,41 @@ func ruleC03c(c *Ctx) {
 			scoreVal = ex
 		}
 	}
+	// every edge on which the best service is replaced carries "this score > best score so far"
 	strict := false
+	sfacts := factsAt(scan)
 	eachInstr(scan, func(i ssa.Instruction) {
-		bo, ok := i.(*ssa.BinOp)
-		if !ok {
+		phi, ok := i.(*ssa.Phi)
+		if !ok || !isPtrToRestful(phi.Type(), "WebService") {
 			return
 		}
-		if (bo.Op == token.GTR && strip(bo.X) == scoreVal) || (bo.Op == token.LSS && strip(bo.Y) == scoreVal) {
-			strict = true
+		nrep := 0
+		allStrict := true
+		for k, e := range phi.Edges {
+			if e == ssa.Value(phi) || isNilConst(e) {
+				continue
+			}
+			if _, isPhi := e.(*ssa.Phi); isPhi {
+				continue
+			}
+			nrep++
+			pred := phi.Block().Preds[k]
+			okEdge := false
+			for f := range sfacts[pred] {
+				bo, isB := f.Cond.(*ssa.BinOp)
+				if !isB || !f.Pol || bo.Op != token.GTR || strip(bo.X) != scoreVal {
+					continue
+				}
+				if _, isPhi := strip(bo.Y).(*ssa.Phi); isPhi {
+					okEdge = true
+				}
+			}
+			if !okEdge {
+				allStrict = false
+			}
 		}
-		if (bo.Op == token.GEQ && strip(bo.X) == scoreVal) || (bo.Op == token.LEQ && strip(bo.Y) == scoreVal) {
-			strict = false
+		if nrep > 0 && allStrict {
+			strict = true
 		}
 	})
 	c.check(strict, sname, "the best root is replaced only by a strictly better one", p.ipos(scoreCall), "eachScore > score", "the best service is replaced on an equal score as well")
